@@ -102,10 +102,21 @@ def sites(files, ops):
 
 
 def sh(cmd, cwd, env=None, timeout=1800):
+    # own process group: a test binary that never returns must die with its cargo
+    import signal
+    p = subprocess.Popen(cmd, cwd=cwd, env=env, stdout=subprocess.PIPE, stderr=subprocess.STDOUT, text=True, start_new_session=True)
     try:
-        r = subprocess.run(cmd, cwd=cwd, env=env, stdout=subprocess.PIPE, stderr=subprocess.STDOUT, text=True, timeout=timeout)
-        return r.returncode, r.stdout
-    except subprocess.TimeoutExpired as te:
+        out, _ = p.communicate(timeout=timeout)
+        return p.returncode, out
+    except subprocess.TimeoutExpired:
+        try:
+            os.killpg(p.pid, signal.SIGKILL)
+        except Exception:
+            pass
+        try:
+            p.communicate(timeout=30)
+        except Exception:
+            pass
         return 124, "timeout"
 
 
